@@ -23,7 +23,7 @@ import (
 func init() {
 	fw.Register(&fw.Check{
 		ID: "C03", Level: "model_checking",
-		Rule: "(a) environment-answer DFS over map-iteration orders: every `range` over a map in the library (found by the typed instrumenter: 4 sites today) is an explicit choice point; for multi-fault / multi-entry documents (2-3 faulty macros, 2-3 unused Path properties, 3 enums used by 3 types, their pairwise combinations, and every single pool block) ALL permutations at every choice point are executed (full product up to 20000 executions per document, beyond that every execution with <= 2 choice points departing from the canonical order) and verdict, message, index, line, trace and JSON bytes must be identical; (b) every project run twice in one process; (c) every project run in two fresh processes; (d) every ordered pair (A, B) of a 34-project set (accepted and rejected, same file names with LF / CRLF / CR content, includes with equal relative names) run A then B in one process: B's result must equal B's result in a fresh process; non-trivial = execution with at least one choice point holding >= 2 keys, or a pair; distinct = distinct (document, choice vector) and pairs",
+		Rule: "(a) environment-answer DFS over map-iteration orders: every `range` over a map in the library (found by the typed instrumenter: 4 sites today) is an explicit choice point; for multi-fault / multi-entry documents (2-3 faulty macros, 2-3 unused Path properties, 3 enums used by 3 types, their pairwise combinations, every single pool block; and every single-file case of the shared streams: pool documents in several orders, all sequences of <= 2 directive variants, paste graphs, 2-3 simultaneous instances of every fault kind about named things, thorough: corpus and names) ALL permutations at every choice point are executed (full product up to 20000 executions per document, beyond that every execution with <= 2 choice points departing from the canonical order) and verdict, message, index, line, trace and JSON bytes must be identical; (b) every project run twice in one process; (c) every project run in two fresh processes; (d) every ordered pair (A, B) of a 34-project set (accepted and rejected, same file names with LF / CRLF / CR content, includes with equal relative names) run A then B in one process: B's result must equal B's result in a fresh process; non-trivial = execution with at least one choice point holding >= 2 keys, or a pair; distinct = distinct (document, choice vector) and pairs",
 		Assume: []string{"map iterations inside the pinned schema library are not instrumented (only this repository's packages are); interference between projects processed concurrently is C16's harness H3"},
 		Run:    runC03, QuickCap: 10 * time.Minute, ThoroughCap: 40 * time.Minute,
 	})
@@ -209,103 +209,30 @@ func runC03(c *fw.Ctx) {
 		limit = 200000
 	}
 	for _, name := range names {
-		text := docs[name]
 		if c.Expired() {
 			break
 		}
-		base, trace := runWithChoices(text, nil)
-		baseD := digestOutcome(base, "")
-		// replay determinism: the same (empty) choice vector must give the same trace
-		_, trace2 := runWithChoices(text, nil)
-		if fmt.Sprint(trace) != fmt.Sprint(trace2) {
-			c.Note("harness_fault", "choice-point trace of "+name+" differs between two identical runs")
-			c.NotExhaustive("nondeterministic choice trace")
-			continue
-		}
-		product := 1
-		for _, cp := range trace {
-			if product < limit*10 {
-				product *= factorial(cp.n)
-			}
-		}
-		full := product <= limit
-		if !full {
-			c.Count("documents_deviation_bounded", 1)
-		}
-		// enumerate choice vectors (DFS): vector positions index choice points in order of occurrence
-		type found struct {
-			dev    int
-			site   string
-			detail string
-			wit    map[string]interface{}
-		}
-		var founds []found
-		var rec func(vec []int, pos int, deviations int)
-		rec = func(vec []int, pos int, deviations int) {
-			if pos == len(trace) {
-				if !c.Next() {
-					return
-				}
-				c.Count("evaluations", 1)
-				o, tr := runWithChoices(text, vec)
-				nontriv := false
-				for _, cp := range tr {
-					if cp.n >= 2 {
-						nontriv = true
-					}
-				}
-				if nontriv {
-					c.Distinct(name + fmt.Sprint(vec))
-				}
-				if len(tr) != len(trace) {
-					// a different order led to a different path through the code (e.g. another error first): fine,
-					// the outcome comparison below is what counts
-					c.Count("executions_with_different_choice_trace", 1)
-				}
-				if d := digestOutcome(o, ""); d != baseD {
-					if fw.Confirm(func() bool { o2, _ := runWithChoices(text, vec); return digestOutcome(o2, "") != baseD }) {
-						site := ""
-						dev := 0
-						for i, v := range vec {
-							if v != 0 && i < len(trace) {
-								site = trace[i].site
-								dev++
-							}
-						}
-						founds = append(founds, found{dev, site, fmt.Sprintf("document %s: with iteration order %v at the map ranges %v the result is %s, with the canonical order %s", name, vec, trace, o.Short(), base.Short()),
-							map[string]interface{}{"text": text, "choices": append([]int{}, vec...), "choice_points": fmt.Sprint(trace)}})
-					}
-				} else {
-					c.Sample("orders", 2, map[string]interface{}{"doc": name, "choices": vec, "choice_points": fmt.Sprint(trace), "outcome": o.Short()})
-				}
-				return
-			}
-			n := factorial(trace[pos].n)
-			for v := 0; v < n; v++ {
-				d := deviations
-				if v != 0 {
-					d++
-				}
-				if !full && d > 2 {
-					break
-				}
-				rec(append(vec, v), pos+1, d)
-			}
-		}
-		rec(nil, 0, 0)
-		// the witnesses with the fewest departures from the canonical order name the map range at fault
-		min := 1 << 30
-		for _, f := range founds {
-			if f.dev < min {
-				min = f.dev
-			}
-		}
-		for _, f := range founds {
-			if f.dev == min {
-				c.Violate("order-dependent-result", "C03:map-order:"+f.site, f.detail, f.wit)
-			}
-		}
+		exploreOrders(c, name, docs[name], limit, true)
 	}
+	// the same exploration over the single-file cases of the shared streams: every document in
+	// which some map range sees two or more keys gets all its iteration orders (documents are
+	// distributed over the workers, the orders of one document stay with one worker)
+	which := map[string]bool{"pool": true, "variants": true, "paste": true, "multi": true}
+	if !c.Quick() {
+		which["corpus"] = true
+		which["names"] = true
+	}
+	eachCase(c, which, func(sc streamCase) {
+		if len(sc.proj.Files) != 1 || len(sc.proj.Dirs) != 0 || len(sc.opt.Banned) > 0 {
+			return
+		}
+		if sc.stream == "corpus-edit" && c.Quick() {
+			return
+		}
+		c.Count("stream_documents", 1)
+		c.Count("evaluations", 2) // the canonical run and its replay (choice-trace determinism)
+		exploreOrders(c, sc.stream+":"+sc.label, sc.proj.Files[sc.proj.Root], limit/10, false)
+	})
 
 	// (b)-(d): repetition, fresh processes, and A-then-B
 	self, _ := os.Executable()
@@ -372,6 +299,120 @@ func runC03(c *fw.Ctx) {
 				}
 			} else {
 				c.Sample("pair", 2, map[string]interface{}{"first": ps[i].name, "second": ps[j].name})
+			}
+		}
+	}
+}
+
+// exploreOrders runs one document under every iteration order of every map range it reaches
+// (full product up to limit executions, beyond that every execution with <= 2 choice points
+// departing from the canonical order) and requires identical observable results.
+func exploreOrders(c *fw.Ctx, name, text string, limit int, shardByVector bool) {
+	{
+		if c.Expired() {
+			return
+		}
+		base, trace := runWithChoices(text, nil)
+		baseD := digestOutcome(base, "")
+		// replay determinism: the same (empty) choice vector must give the same trace
+		_, trace2 := runWithChoices(text, nil)
+		if fmt.Sprint(trace) != fmt.Sprint(trace2) {
+			c.Note("harness_fault", "choice-point trace of "+name+" differs between two identical runs")
+			c.NotExhaustive("nondeterministic choice trace")
+			return
+		}
+		product := 1
+		for _, cp := range trace {
+			if product < limit*10 {
+				product *= factorial(cp.n)
+			}
+		}
+		full := product <= limit
+		if !full {
+			c.Count("documents_deviation_bounded", 1)
+		}
+		// enumerate choice vectors (DFS): vector positions index choice points in order of occurrence
+		type found struct {
+			dev    int
+			site   string
+			detail string
+			wit    map[string]interface{}
+		}
+		var founds []found
+		var rec func(vec []int, pos int, deviations int)
+		rec = func(vec []int, pos int, deviations int) {
+			if pos == len(trace) {
+				if shardByVector && !c.Next() {
+					return
+				}
+				if !shardByVector && len(vec) > 0 {
+					allZero := true
+					for _, v := range vec {
+						if v != 0 {
+							allZero = false
+						}
+					}
+					if allZero {
+						return // the canonical order is the base run
+					}
+				}
+				c.Count("evaluations", 1)
+				o, tr := runWithChoices(text, vec)
+				nontriv := false
+				for _, cp := range tr {
+					if cp.n >= 2 {
+						nontriv = true
+					}
+				}
+				if nontriv {
+					c.Distinct(name + fmt.Sprint(vec))
+				}
+				if len(tr) != len(trace) {
+					// a different order led to a different path through the code (e.g. another error first): fine,
+					// the outcome comparison below is what counts
+					c.Count("executions_with_different_choice_trace", 1)
+				}
+				if d := digestOutcome(o, ""); d != baseD {
+					if fw.Confirm(func() bool { o2, _ := runWithChoices(text, vec); return digestOutcome(o2, "") != baseD }) {
+						site := ""
+						dev := 0
+						for i, v := range vec {
+							if v != 0 && i < len(trace) {
+								site = trace[i].site
+								dev++
+							}
+						}
+						founds = append(founds, found{dev, site, fmt.Sprintf("document %s: with iteration order %v at the map ranges %v the result is %s, with the canonical order %s", name, vec, trace, o.Short(), base.Short()),
+							map[string]interface{}{"text": text, "choices": append([]int{}, vec...), "choice_points": fmt.Sprint(trace)}})
+					}
+				} else {
+					c.Sample("orders", 2, map[string]interface{}{"doc": name, "choices": vec, "choice_points": fmt.Sprint(trace), "outcome": o.Short()})
+				}
+				return
+			}
+			n := factorial(trace[pos].n)
+			for v := 0; v < n; v++ {
+				d := deviations
+				if v != 0 {
+					d++
+				}
+				if !full && d > 2 {
+					break
+				}
+				rec(append(vec, v), pos+1, d)
+			}
+		}
+		rec(nil, 0, 0)
+		// the witnesses with the fewest departures from the canonical order name the map range at fault
+		min := 1 << 30
+		for _, f := range founds {
+			if f.dev < min {
+				min = f.dev
+			}
+		}
+		for _, f := range founds {
+			if f.dev == min {
+				c.Violate("order-dependent-result", "C03:map-order:"+f.site, f.detail, f.wit)
 			}
 		}
 	}
